@@ -12,6 +12,7 @@ import (
 	"path"
 	"path/filepath"
 	"strings"
+	"syscall"
 
 	"github.com/emersion/go-webdav/internal"
 )
@@ -228,6 +229,20 @@ func checkDistinctPaths(srcPath, dstPath string) error {
 	return nil
 }
 
+// checkDestinationParent answers 409 Conflict when the collection that is to
+// hold a new destination resource does not exist (RFC 4918 sections 9.8.5
+// and 9.9.4).
+func checkDestinationParent(dstPath string) error {
+	fi, err := os.Stat(filepath.Dir(dstPath))
+	if err == nil && fi.IsDir() {
+		return nil
+	}
+	if err != nil && !os.IsNotExist(err) && !errors.Is(err, syscall.ENOTDIR) {
+		return errFromOS(err)
+	}
+	return NewHTTPError(http.StatusConflict, fmt.Errorf("webdav: destination's parent collection does not exist"))
+}
+
 func copyRegularFile(src, dst string, perm os.FileMode) error {
 	srcFile, err := os.Open(src)
 	if err != nil {
@@ -271,8 +286,11 @@ func (fs LocalFileSystem) Copy(ctx context.Context, src, dst string, options *Co
 	}
 
 	if _, err := os.Stat(dstPath); err != nil {
-		if !os.IsNotExist(err) {
+		if !os.IsNotExist(err) && !errors.Is(err, syscall.ENOTDIR) {
 			return false, errFromOS(err)
+		}
+		if err := checkDestinationParent(dstPath); err != nil {
+			return false, err
 		}
 		created = true
 	} else {
@@ -339,8 +357,11 @@ func (fs LocalFileSystem) Move(ctx context.Context, src, dst string, options *Mo
 	}
 
 	if _, err := os.Stat(dstPath); err != nil {
-		if !os.IsNotExist(err) {
+		if !os.IsNotExist(err) && !errors.Is(err, syscall.ENOTDIR) {
 			return false, errFromOS(err)
+		}
+		if err := checkDestinationParent(dstPath); err != nil {
+			return false, err
 		}
 		created = true
 	} else {
